@@ -1,0 +1,36 @@
+//go:build verif
+
+// Exports used only by the external verification harness (build tag `verif`).
+
+package kv
+
+import (
+	"github.com/pkg/errors"
+)
+
+// VerifCompact runs a manual compaction over the whole key space of a Pebble-backed KV (Pebble flushes the
+// memtable first). With fewer than two keys there is no range to compact and the KV is only flushed.
+func VerifCompact(k KV) error {
+	p, ok := k.(*Pebble)
+	if !ok {
+		return errors.New("not a Pebble KV")
+	}
+	it, err := p.db.NewIter(nil)
+	if err != nil {
+		return err
+	}
+	var first, last []byte
+	if it.First() {
+		first = append(first, it.Key()...)
+	}
+	if it.Last() {
+		last = append(last, it.Key()...)
+	}
+	if err := it.Close(); err != nil {
+		return err
+	}
+	if first == nil || OxiaSlashSpanComparer.Compare(first, last) >= 0 {
+		return p.db.Flush()
+	}
+	return p.db.Compact(first, last, true)
+}
